@@ -105,6 +105,8 @@ func (e *feeEnv) exec(op string) string {
 				}
 			}
 			return res
+		case "paytx":
+			return e.execPay(ws)
 		case "bips":
 			var bips uint32
 			fmt.Sscan(ws[2], &bips)
@@ -118,7 +120,7 @@ func (e *feeEnv) exec(op string) string {
 	})
 }
 
-func genFeeOp(r *RNG, out *Out) string {
+func (e *feeEnv) genFeeOp(r *RNG, out *Out) string {
 	nearMultiple := func(d *big.Int) *big.Int {
 		// k*d + {-1,0,1}
 		k := r.BigBoundary()
@@ -131,6 +133,10 @@ func genFeeOp(r *RNG, out *Out) string {
 			x.Rsh(x, uint(x.BitLen()-256))
 		}
 		return x
+	}
+	if r.Intn(100) < 2 {
+		// a fee configuration set through governance and one transaction paid out through the real app
+		return e.genFeePayOp(r, out)
 	}
 	switch k := r.Intn(100); {
 	case k < 8:
@@ -273,7 +279,7 @@ func genFeeOp(r *RNG, out *Out) string {
 func driveFee(t *testing.T, rng *RNG, n int, out *Out) {
 	e := &feeEnv{t: t}
 	for i := 0; i < n; i++ {
-		op := genFeeOp(rng, out)
+		op := e.genFeeOp(rng, out)
 		res := e.exec(op)
 		out.Count("res:" + resClass(res))
 		out.Emit(op, res)
